@@ -388,7 +388,38 @@ func (g *gen) behC06() M {
 		steps = append(steps, st)
 	}
 	steps = append(steps, send(M{"t": "S"}))
-	return M{"cfg": baseCfg(), "steps": steps}
+	cfg := baseCfg()
+	g.customCache(cfg, steps, 0.25)
+	return M{"cfg": cfg, "steps": steps}
+}
+
+// customCache: with probability p the server resolves names through user-supplied (recording) caches, and such
+// a cache may fail: names it refuses to store, to look up or to bind.
+func (g *gen) customCache(cfg M, steps []any, p float64) {
+	if !g.chance(p) {
+		return
+	}
+	cfg["cache"] = "custom"
+	if !g.chance(0.5) {
+		return
+	}
+	for _, sv := range steps {
+		m := run.AsM(run.AsM(sv)["m"])
+		if g.chance(0.12) {
+			switch run.S(m, "t") {
+			case "P":
+				m["name"] = g.pick("xset", "xget")
+			case "B":
+				if g.chance(0.5) {
+					m["stmt"] = "xget"
+				} else {
+					m["portal"] = "xbind"
+				}
+			case "D":
+				m["name"] = "xget"
+			}
+		}
+	}
 }
 
 // behC07: name-resolution histories: every Parse is a fresh definition; a Sync
@@ -453,9 +484,7 @@ func (g *gen) behC07() M {
 		steps = append(steps, st, send(M{"t": "S"}))
 	}
 	cfg := baseCfg()
-	if g.chance(0.4) {
-		cfg["cache"] = "custom" // the server resolves names through user-supplied caches: their calls are recorded
-	}
+	g.customCache(cfg, steps, 0.4)
 	return M{"cfg": cfg, "steps": steps}
 }
 
